@@ -311,6 +311,16 @@ class TestUniformRejection:
         finally:
             c.close()
 
+    def test_an_unencodable_subject_is_malformed_not_a_server_error(self) -> None:
+        """JSON can spell a lone surrogate; it must get the uniform 404, not a 500."""
+        c = _client()
+        try:
+            resp = _post(c, _PROXY, b'{"token": "\\ud800opaque"}')
+            assert resp.status_code == 404
+            assert json.loads(resp.content) == {"error": "unresolved"}
+        finally:
+            c.close()
+
     def test_jws_shaped_subject_is_never_resolved(self) -> None:
         """A JWS validated locally must not be vouched for here.
 
